@@ -27,13 +27,19 @@ func init() {
 		Run: func(w *mc.W, u int) {
 			unit := c03Units(w.Tier)[u]
 			st := &c03State{}
+			var hist byteHist
 			unit.Each(func(b []byte) bool {
+				hist.begin(w, b, unit.Name)
 				c03Check(w, st, b, unit.Name)
+				hist.end(histOK)
 				return !w.Expired()
 			})
 		},
-		Replay: bytesReplay(func(w *mc.W, b []byte, unit string) { c03Check(w, &c03State{}, b, unit) }),
-		Post:   postDistinct(100),
+		Replay: bytesReplay(func() func(w *mc.W, b []byte, unit string) {
+			st := &c03State{}
+			return func(w *mc.W, b []byte, unit string) { c03Check(w, st, b, unit) }
+		}),
+		Post: postDistinct(100),
 	})
 }
 
@@ -79,6 +85,7 @@ func c03Check(w *mc.W, st *c03State, b []byte, unit string) {
 		return
 	}
 	p := st.ps.Parse(b)
+	histOK = p.MetaOK
 	implOK := err == nil
 	if implOK != p.OK {
 		if implOK {
